@@ -40,11 +40,13 @@ UNITS = {
 
 UNITS['U02'] = dict(
     kind='verus', tpl='contracts/U02_column_buffer.vx', fallback='U02b',
-    title='mem_store/column_buffer.rs: ColumnBuffer::{null,len,push_val,push_ints,push_floats,push_strings,push_nulls,push_present,init_present}, IntColBuffer::{default,push}, FloatColBuffer::push, MixedColBuffer::push',
+    title='mem_store/column_buffer.rs: ColumnBuffer::{null,len,push_val,push_ints,push_floats,push_strings,push_nulls,push_present,init_present}, IntColBuffer::{default,push}, FloatColBuffer::push, MixedColBuffer::push; ingest/buffer.rs: per-column bodies of Buffer::push_typed_cols and Buffer::extend_to_largest (slices)',
     assumptions=['R8: iterator parameters (impl IntoIterator) monomorphised to slices; all call sites pass arrays, Vecs or slice iterators',
                  'R9 shims (external_body, assumed length specs): StringColBuffer (opaque; its string packing is U03), '
                  'vx_mixed_from_strings / vx_mixed_from_data (iterator-adapter conversions into MixedColBuffer), vx_i64_to_f64, vx_to_string',
-                 'payload of float / string / mixed rows is opaque here: only row count, NULL-ness and the integer payload are views'],
+                 'payload of float / string / mixed rows is opaque here: only row count, NULL-ness and the integer payload are views',
+                 'A-wire-wf: sparse (index, value) lists have strictly increasing indices below the row count (established by the row API, not by the wire decoder)',
+                 'A-hashmap: the HashMap iteration around the per-column slices of ingest/buffer.rs is not verified (each column is handled independently)'],
     not_covered=['ColumnBuffer::finalize and the *ColBuffer::finalize functions (Arc<Column> construction; integer part in U04)',
                  'is_lowercase_hex / is_uppercase_hex (char iterators)'])
 
@@ -198,31 +200,34 @@ UNITS['U02b'] = dict(
     not_covered=['push_floats / push_strings / finalize'])
 
 UNITS['U14k'] = dict(
-    kind='kani', crate='kani/U14', timeout_s=1500, mem_gb=16, jobs=2,
-    title='BOUNDED (payload <= 3 bytes): disk_store/file_writer.rs compiled as is; VersionedChecksummedBlobWriter::{store,load} over an in-memory inner writer, digest replaced by a stand-in crate',
+    kind='kani', crate='kani/U14', timeout_s=900, mem_gb=10, jobs=1,
+    title='BOUNDED (payload <= 2 bytes): disk_store/file_writer.rs compiled as is; VersionedChecksummedBlobWriter::{store,load} over an in-memory inner writer, digest replaced by a stand-in crate',
     path_includes=['src/disk_store/file_writer.rs'],
-    harnesses=[dict(name='proofs::store_load_roundtrip', bounded='payload <= 3 bytes, unwind 55', unwind=55, clause='load(store(d)) == d', fn='VersionedChecksummedBlobWriter::store/load'),
-               dict(name='proofs::load_accepts_only_envelopes', bounded='file <= 51 bytes, unwind 55', unwind=55, clause='Ok(p) ==> file is exactly version 0 | len | digest(p) | p', fn='VersionedChecksummedBlobWriter::load'),
+    harnesses=[dict(name='proofs::store_load_roundtrip', bounded='payload of 2 bytes, unwind 35', unwind=35, clause='load(store(d)) == d', fn='VersionedChecksummedBlobWriter::store/load'),
+               dict(name='proofs::load_len47_rejected', bounded='every 47-byte file, unwind 35', unwind=35, clause='shorter than the header ==> Err', fn='VersionedChecksummedBlobWriter::load'),
+               dict(name='proofs::load_len49', bounded='every 49-byte file, unwind 35', unwind=35, clause='Ok(p) ==> version 0, length field == |p|, payload bytes == p, file stays accepted', fn='VersionedChecksummedBlobWriter::load'),
                dict(name='proofs::vx_canary', expect_fail=True)],
-    assumptions=['A-sha: the sha2 crate is replaced by a stand-in crate with the same API (kani/U14/sha2_shim); no property of SHA-256 is used or proved; collision resistance is what makes "bit-flipped files are rejected" hold for the checksum field itself',
+    assumptions=['A-sha: the sha2 crate is replaced by a stand-in crate with the same API (kani/U14/sha2_shim); no property of SHA-256 is used or proved',
                  'format! on error paths stubbed (message text irrelevant)'],
     not_covered=['FileBlobWriter (file system)', 'Cap\'n Proto encode/decode of segments and catalogue (A-capnp)'])
 
-UNITS['U04k'] = dict(
-    kind='kani', crate='kani/U04',
-    title='integers.rs: IntegerColumn::new_boxed interval computation and width/offset choice (slice) for every (min, max) (complete)',
-    harnesses=[dict(name='proofs::width_offset_choice', unwind=6, clause='chosen width/offset holds [min - offset, max - offset]; no overflow computing the interval', fn='IntegerColumn::new_boxed[slice]'),
-               dict(name='proofs::vx_canary', expect_fail=True)],
-    assumptions=['shims: Column::new / IntegerColumn::create_col / DataSection record the choice instead of building a column'],
-    not_covered=['lz4_or_pco_encode (A-lz4, A-pco)'])
-
 PROPS = {
+    'C07': dict(level='proof', units=['U02', 'U03', 'U04k', 'U04v'],
+                level_text='Verus proofs of the column rebuild kernels used by compaction: ColumnBuffer append with null maps (incl. the incoming-null-map path that only compaction takes), string packing round trip, integer encode / delta / decode kernels; complete Kani proof of the width/offset choice',
+                level_note='plan_compaction, Table::compact swap, eviction / reload (LRU), and the free stack-machine column::decode over dyn Data are not covered; see known findings',
+                technique='contract-based deductive verification (Verus + Kani complete) of extracted functions and slices',
+                assumptions=[], not_covered=['column::decode (dyn Data stack machine)', 'plan_compaction / Table::compact', 'LRU eviction and reload']),
+    'C13': dict(level='proof', units=['U02'],
+                level_text='Verus proofs: a column missing from a batch is padded with NULLs for that batch (extend_to_largest body), a column first seen late reads NULL for all earlier rows (ColumnBuffer::null + push_*), per-column append of every input representation',
+                level_note='catalogue tables, lazy column_names initialisation, SELECT * expansion and the HashMap iteration around the per-column code are not covered',
+                technique='contract-based deductive verification (Verus) of extracted functions and statement slices',
+                assumptions=[], not_covered=['catalogue (_meta_tables, _meta_columns_*)', 'compaction column list', 'SELECT * expansion']),
     'C08': dict(level='proof', units=['U18k'],
                 level_text='complete Kani proofs of the WAL cursor primitives and of the replay-or-delete classification at recovery (narrow: primitives, not the protocol)',
                 level_note='the check catches a broken cursor primitive or classification, not a broken ordering of persist / advance / delete across threads; history composition is not covered',
                 technique='contract-based deductive verification (Kani complete harnesses) of extracted functions and statement slices',
                 assumptions=[], not_covered=['write-ahead-before-acknowledge (thread join)', 'wal_flush ordering', 'catalogue (de)serialisation']),
-    'C16': dict(level='proof', units=['U16k', 'U15k', 'U17k'],
+    'C16': dict(level='proof', units=['U16k', 'U15k', 'U02'],
                 level_text='float codec: induction base/step discharged by complete Kani harnesses over the extracted loop bodies; integer layouts and client-side row API: bounded Kani harnesses (length <= 4) over all values',
                 level_note='A-bitbuffer, A-ind-scheme, A-capnp; bounded parts are reported under coverage.bounded and not counted as discharged obligations',
                 technique='contract-based deductive verification (Kani: complete induction step + bounded harnesses) of extracted slices and of the unmodified sub-crate',
